@@ -79,7 +79,7 @@ def check(run: Run) -> None:
                 continue
             n_tests += 1
             kinds.add(what)
-            run.check(t == visited, "C14.R2", fi, stmt_of(n), f"dispatch test for {what} is made on the visited value", f"{name} tests for {what} on the un-visited {show(t)}: a value that only becomes {what} after substitution (an argument bound to a tuple/dict/First() in an earlier stage) is not projected / pushed through", f"test self.visit(node.{attr_of_value})", show(t))
+            run.check(t == visited, "C14.R2", fi, stmt_of(n), f"dispatch test for {what} is made on the visited value", f"{name} tests for {what} on the un-visited {show(t)}: a value that only becomes {what} after substitution (an argument bound to a tuple/dict/First() in an earlier stage) is not projected / pushed through", f"test self.visit(node.{attr_of_value})", show(t), key=f"dispatch test for {what} on the un-visited node.{attr_of_value}")
         run.floor("C14.R2", n_tests, 2 if name == "visit_Attribute" else 4, f"dispatch tests in {name}")
         run.notes.setdefault("dispatch_kinds", {})[name] = sorted(kinds)
 
